@@ -98,6 +98,10 @@ def settle(chk, results, model, what='document'):
             elif r['impl'] is not None and not docs.same_result(r['impl'], a):
                 chk.mismatch(r['label'], r.get('witness') or r['key'],
                              f"impl={docs.pretty(str(r['impl']))[:400]} model={docs.pretty(a)[:400]}")
+                if not hasattr(chk, 'mismatched_records'):
+                    chk.mismatched_records = []
+                if len(chk.mismatched_records) < 50:
+                    chk.mismatched_records.append(r)
             chk.traces_validated += 1
         if r['sample'] is not None:
             chk.sample(r['sample'])
